@@ -491,16 +491,25 @@ def install():
     import numpy.fft as ft
 
     def _w(n, k, sign):
-        # exp(sign * 2 pi i k / n) exactly, n in {1,2,4}
-        if n not in (1, 2, 4):
-            raise Unsupported("DFT stub supports lengths 1, 2, 4 only (got %d)" % n)
-        q = (k * (4 // n)) % 4
-        re, im = [(1, 0), (0, 1), (-1, 0), (0, -1)][q]
-        return complex(re, sign * im)
+        """exp(sign * 2 pi i k / n) EXACTLY as a CS constant: n in {1,2,4} has entries in {+-1, +-i}; n in {3,6} uses the
+        algebraic constant sqrt(3) (r*r == 3, r > 0)"""
+        from .sym import alg_sqrt
+
+        if n in (1, 2, 4):
+            q = (k * (4 // n)) % 4
+            re, im = [(1, 0), (0, 1), (-1, 0), (0, -1)][q]
+            return CS(S(Fr(re)), S(Fr(sign * im)))
+        if n in (3, 6):
+            q = (k * (6 // n)) % 6
+            h = Fr(1, 2)
+            r3 = S(alg_sqrt(3)) * S(h)
+            tab = [(S(Fr(1)), S(Fr(0))), (S(h), r3), (S(-h), r3), (S(Fr(-1)), S(Fr(0))), (S(-h), -r3), (S(h), -r3)]
+            re, im = tab[q]
+            return CS(re, im if sign > 0 else -im)
+        raise Unsupported("DFT stub supports lengths 1, 2, 3, 4, 6 only (got %d)" % n)
 
     def _cmul(w, e):
-        e = CS.L(e)
-        return CS(e.re * C(w.real) - e.im * C(w.imag), e.re * C(w.imag) + e.im * C(w.real))
+        return w * CS.L(e)
 
     def _dft1(v, n, sign, scale):
         m = len(v)
@@ -602,7 +611,7 @@ def install():
                 return orig(a, *args, **kwargs)
             return f
 
-    DFT = "explicit DFT matrix, lengths in {1,2,4}, NumPy's n/s/axes/norm semantics"
+    DFT = "explicit DFT matrix, lengths in {1,2,3,4,6} (sqrt(3) as an exact algebraic constant), NumPy's n/s/axes/norm semantics"
     _mk("fft", DFT, lambda a, n=None, axis=-1, norm=None, out=None: _fft_axis(a, n, axis, norm, False))
     _mk("ifft", DFT, lambda a, n=None, axis=-1, norm=None, out=None: _fft_axis(a, n, axis, norm, True))
     _mk("fft2", DFT, lambda a, s=None, axes=(-2, -1), norm=None, out=None: _fftn(a, s, axes, norm, False, True))
